@@ -703,9 +703,13 @@ func report(prop, tier string, seed int64, results []*OblResult, knownAll map[st
 				lines = append(lines, fmt.Sprintf("KNOWN-FINDING: property=%s %s: %s (obligation %s, label %q, e.g. %v)", prop, v.Finding, knownAll[v.Finding].What, r.Ob.Name, v.Label, v.Model))
 			}
 		}
+		onlyKnown := map[string]bool{}
+		for _, v := range r.KnownHits {
+			onlyKnown[v.Label] = true
+		}
 		for l := range labels {
 			nObl++
-			if r.Discharged[l] > 0 && r.Unknown[l] == 0 {
+			if (r.Discharged[l] > 0 || onlyKnown[l]) && r.Unknown[l] == 0 {
 				viol := false
 				for _, v := range append(append([]Violation{}, r.Confirmed...), r.Spurious...) {
 					if v.Label == l {
